@@ -16,7 +16,7 @@ func init() {
 
 func checkC03(c *Ctx) {
 	r, t := c.R, c.T
-	r.Explanation = "Decides, for both interpreters: (1) TRUTHY: condTrue specialised for each of the 9 type tags equals the truthiness bullets of spec §Select Statement (reference/operators.json truthy|*); (2) IF-FIRST: in RunIfElseStmt a branch body is entered only on the true edge of condTrue(condition), and once a body ran no other condition, body or the else block can be reached — the else block is reachable only after the branch list is exhausted; (3) SCOPE: StackEnterNew/StackExitCur are exactly balanced at every success return of the three block executors and of their check-pass twins (defer-aware depth typestate), and each body runs one level deeper than its executor's entry; StackExitCur re-points the current scope to its parent; (4) LOOP-FLAGS: a relational dataflow over the pair (loopBreak, loopContinue) ∈ {FF, TF, FT} — body call yields {FF,TF,FT}, branches on the flags, forbreak/forcontinue, StmtRetrun's false edge and stores refine it — shows both flags are false on every back edge and at every success return of each loop executor (so break/continue never leak into an enclosing loop), and only the break/continue statements ever set them; the three-clause loop evaluates its Loop clause on every non-breaking cycle (a `continue` cannot skip it); (5) VARS: Stack.Set updates the first frame of the Before chain that has the key and otherwise inserts into the receiver's own frame; Stack.Get walks the same chain; Task.GetKey consults the variable stack before the input point; an unresolved identifier evaluates to (nil, Nil) in v1; for-in clears its loop scope once per iteration; (6) ITER: each for-in arm is a Go range over the iterated value with exactly one body execution per iteration. Not decided: iteration counts and effect orders of arbitrary nestings as behaviour (every structural determinant of them is)."
+	r.Explanation = "Decides, for both interpreters: (1) TRUTHY: condTrue specialised for each of the 9 type tags equals the truthiness bullets of spec §Select Statement (reference/operators.json truthy|*); (2) IF-FIRST: in RunIfElseStmt a branch body is entered only on the true edge of condTrue(condition), and once a body ran no other condition, body or the else block can be reached — the else block is reachable only after the branch list is exhausted; (3) SCOPE: StackEnterNew/StackExitCur are exactly balanced at every success return of the three block executors and of their check-pass twins (defer-aware depth typestate), and each body runs one level deeper than its executor's entry; StackExitCur re-points the current scope to its parent; (4) LOOP-FLAGS: a relational dataflow over the pair (loopBreak, loopContinue) ∈ {FF, TF, FT} — body call yields {FF,TF,FT}, branches on the flags, forbreak/forcontinue, StmtRetrun's false edge and stores refine it — shows both flags are false on every back edge and at every success return of each loop executor (so break/continue never leak into an enclosing loop), and only the break/continue statements ever set them; the three-clause loop evaluates its Loop clause on every non-breaking cycle (a `continue` cannot skip it); (5) VARS: Stack.Set updates the first frame of the Before chain that has the key and otherwise inserts into the receiver's own frame; Stack.Get walks the same chain; Task.GetKey consults the variable stack before the input point; an unresolved identifier evaluates to (nil, Nil) in v1; for-in clears its loop scope once per iteration; (6) ITER: each for-in arm is a Go range over the iterated value with exactly one body execution per iteration. Not decided: iteration counts and effect orders of arbitrary nestings as behaviour (every structural determinant of them is). SCOPE also demands that the three-clause loop evaluates init, condition and loop clause at one scope depth and its body one level deeper; the loop rules follow iteration helpers that answer go-on/stop."
 	var ref opRef
 	if !mustRef(c, "operators.json", &ref) {
 		return
